@@ -9,7 +9,6 @@
 (***************************************************************************)
 EXTENDS Ops
 
-DigitsText(d) == IF d = <<>> THEN <<c0>> ELSE [i \in 1..Len(d) |-> d[Len(d) + 1 - i] + c0]     \* big-endian characters
 IntText(k) == (IF k < 0 THEN <<cMinus>> ELSE <<>>) \o DigitsText(NatOf(AbsI(k)))
 IntTextPlus(k) == (IF k < 0 THEN <<cMinus>> ELSE <<cPlus>>) \o DigitsText(NatOf(AbsI(k)))
 SignText(a) == IF a.s < 0 THEN <<cMinus>> ELSE <<>>
